@@ -4,25 +4,25 @@ From Coq Require Import ZArith List Bool.
 From JV Require Import Gen.G_rar Model.M_datagen Model.M_rar.
 Import ListNotations.
 Definition dim_ode : dim_gen :=
-  {| d_cap := gen_rar_capacity_ok_t;
+  {| d_cap := gen_rar_capacity_ok_ode_t;
      d_offset := fun pt _ Jc => gen_rar_offset_ode (dstart pt) Jc (dsel pt);
      d_pprefix := fun pt _ => gen_rar_pprefix_ode (dstart pt);
      d_pslice := fun pt _ k => gen_rar_pslice_start_ode (dstart pt) k (dsel pt);
      d_lo := gen_rar_ploop_lo_ode; d_hi := gen_rar_ploop_hi_ode |}.
 Definition dim_statio : dim_gen :=
-  {| d_cap := gen_rar_capacity_ok_x;
+  {| d_cap := gen_rar_capacity_ok_statio_x;
      d_offset := fun _ px Jc => gen_rar_offset_statio (dstart px) Jc (dsel px);
      d_pprefix := fun _ px => gen_rar_pprefix_statio (dstart px);
      d_pslice := fun _ px k => gen_rar_pslice_start_statio (dstart px) k (dsel px);
      d_lo := gen_rar_ploop_lo_statio; d_hi := gen_rar_ploop_hi_statio |}.
 Definition dim_ns_t : dim_gen :=
-  {| d_cap := gen_rar_capacity_ok_t;
+  {| d_cap := gen_rar_capacity_ok_ns_t;
      d_offset := fun pt px Jc => gen_rar_offset_ns_t (dstart pt) (dstart px) Jc (dsel pt) (dsel px);
      d_pprefix := fun pt px => gen_rar_pprefix_ns_t (dstart pt) (dstart px);
      d_pslice := fun pt px k => gen_rar_pslice_start_ns_t (dstart pt) (dstart px) k (dsel pt) (dsel px);
      d_lo := gen_rar_ploop_lo_ns_t; d_hi := gen_rar_ploop_hi_ns_t |}.
 Definition dim_ns_x : dim_gen :=
-  {| d_cap := gen_rar_capacity_ok_x;
+  {| d_cap := gen_rar_capacity_ok_ns_x;
      d_offset := fun pt px Jc => gen_rar_offset_ns_x (dstart pt) (dstart px) Jc (dsel pt) (dsel px);
      d_pprefix := fun pt px => gen_rar_pprefix_ns_x (dstart pt) (dstart px);
      d_pslice := fun pt px k => gen_rar_pslice_start_ns_x (dstart pt) (dstart px) k (dsel pt) (dsel px);
